@@ -5,7 +5,7 @@ LEVEL = "model_checking"
 MODULES = fmfile.modules()
 prepare = fblock.prepare
 BOUNDS = {
-    "quick": {"block_types": "all registered (from Factory.cpp)", "version": "symbolic (file,user,stream) under the loader's acceptance predicate", "count_cap_B": 1, "input_bytes_L": 256, "budget_s_per_type": 8},
+    "quick": {"block_types": "all registered (from Factory.cpp)", "version": "symbolic (file,user,stream) under the loader's acceptance predicate", "count_cap_B": 1, "input_bytes_L": 256, "budget_s_per_type": 9},
     "thorough": {"block_types": "all registered", "version": "symbolic, split into 3 version classes", "count_cap_B": 2, "input_bytes_L": 512, "budget_s_per_type": 120},
 }
 ASSUMPTIONS = ['the completed block is produced by the library itself (Get of arbitrary bytes then Put), so every prefix is a prefix of a file the library writes', 'faults in the first (untruncated) Get are unloadable inputs', 'file level: the Miniball bounding-sphere computation (BoundingSphere(vector) constructor) is replaced by a stub returning an arbitrary sphere, because its floating-point control flow over truncation-dependent vertex values is beyond the solver budget; all other float code on truncated data (normal/weight conversions) runs IEEE-exact in z3 FP']
@@ -20,7 +20,7 @@ def owns_violation(v):
 
 
 def jobs(tier, seed):
-    J = fblock.jobs_for("h_trunc", tier, seed, budget_quick=6, extra=dict(huge_alloc_is_violation=True, throw_is_violation=True))
+    J = fblock.jobs_for("h_trunc", tier, seed, budget_quick=9, extra=dict(huge_alloc_is_violation=True, throw_is_violation=True))
     for j in J:
         j["mod"] = "fblock"
     F = []
